@@ -17,6 +17,7 @@ package s2
 import (
 	"bufio"
 	"encoding/binary"
+	"errors"
 	"io"
 	"math"
 )
@@ -120,6 +121,8 @@ func (e *encoder) writeFloat64(x float64) {
 	e.err = binary.Write(e.w, binary.LittleEndian, x)
 }
 
+var errNonFinite = errors.New("s2: non-finite coordinate in encoded data")
+
 type byteReader interface {
 	io.Reader
 	io.ByteReader
@@ -201,7 +204,12 @@ func (d *decoder) readFloat64() float64 {
 	}
 	buf := d.buffer()
 	_, d.err = io.ReadFull(d.r, buf)
-	return math.Float64frombits(binary.LittleEndian.Uint64(buf))
+	x := math.Float64frombits(binary.LittleEndian.Uint64(buf))
+	if d.err == nil && (math.IsNaN(x) || math.IsInf(x, 0)) {
+		d.err = errNonFinite
+		return 0
+	}
+	return x
 }
 
 func (d *decoder) readUvarint() (x uint64) {
